@@ -151,6 +151,96 @@ func H_C16_Once2() {
 	})
 }
 
+// onceProbe builds a Once whose function fails on its first call if failFirst.
+func onceProbe(failFirst bool, errFirst error) (*promise.Once[int], func(int)) {
+	calls, active, succeeded := 0, 0, 0
+	once := promise.NewOnce(func(ctx context.Context) (int, error) {
+		var n int
+		vrt.Atomic(func() {
+			calls++
+			n = calls
+			active++
+			vrt.Assert(active == 1, "once-function-overlap")
+			vrt.Assert(succeeded == 0, "once-called-again-after-success")
+		})
+		var err error
+		if failFirst && n == 1 {
+			err = errFirst
+		}
+		vrt.Atomic(func() {
+			active--
+			if err == nil {
+				succeeded++
+			}
+		})
+		return 100 + n, err
+	})
+	val := 0
+	first := func(v int) {
+		vrt.Atomic(func() {
+			if val == 0 {
+				val = v
+			}
+			vrt.Assert(val == v, "once-callers-disagree")
+		})
+	}
+	return once, first
+}
+
+// H_C16_OnceTwo: two concurrent Resolve callers, the function fails on its first call or not
+// (symbolic): no overlap, no call after a success, both get the same value or the first error.
+func H_C16_OnceTwo() {
+	errFirst := errors.New("first call fails")
+	failFirst := vrt.Bool("fail-first")
+	once, first := onceProbe(failFirst, errFirst)
+	caller := func() {
+		v, err := once.Resolve(context.Background())
+		if err != nil {
+			vrt.Assert(err == errFirst && failFirst, "once-error-identity")
+			return
+		}
+		first(v)
+	}
+	vrt.Go("c1", caller)
+	vrt.Go("c2", caller)
+}
+
+// H_C16_OnceCancel: the caller that starts the call may be cancelled at any moment; the other
+// caller still obtains a result; the cancelled caller gets context.Canceled.
+func H_C16_OnceCancel() {
+	once, first := onceProbe(false, nil)
+	vrt.Go("c1", func() {
+		ctx, cancel := context.WithCancel(context.Background())
+		vrt.CancelAnytime(cancel)
+		v, err := once.Resolve(ctx)
+		if err != nil {
+			vrt.Assert(err == context.Canceled, "once-canceled-caller-error")
+			vrt.Cover("once-caller-cancelled")
+			return
+		}
+		first(v)
+	})
+	vrt.Go("c2", func() {
+		v, err := once.Resolve(context.Background())
+		vrt.Assert(err == nil, "once-live-caller-prevented")
+		first(v)
+	})
+}
+
+// H_C16_OnceRetry: sequential: after an error a later Resolve calls the function again and the
+// success is then kept for good.
+func H_C16_OnceRetry() {
+	errFirst := errors.New("first call fails")
+	once, first := onceProbe(true, errFirst)
+	_, err := once.Resolve(context.Background())
+	vrt.Assert(err == errFirst, "once-first-error")
+	v, err := once.Resolve(context.Background())
+	vrt.Assert(err == nil && v == 102, "once-retry-after-error")
+	first(v)
+	v, err = once.Resolve(context.Background())
+	vrt.Assert(err == nil && v == 102, "once-success-kept")
+}
+
 // H_C16_Memo: three concurrent callers of a memoized function: it is called exactly once and
 // everybody receives that call's result (value and error).
 func H_C16_Memo() {
